@@ -103,10 +103,28 @@ Definition goodbye_on (s : service) (intf : myintf) (v4 : bool) : option packet 
 
 Definition opt_list {A} (o : option A) : list A := match o with Some x => [x] | None => [] end.
 
+(* The interface a packet is seen to leave on.  IPv6: the index given to set_multicast_if_v6.
+   IPv4: set_multicast_if_v4 names an ADDRESS; the packet leaves on the interface that owns this
+   address in the OS table of the moment (0 = no interface owns it any more).  Between a change
+   of the OS table and the next IP check this can differ from the interface the daemon means. *)
+Definition dest_is_v4 (p : packet) : bool :=
+  match p_dest p with DMulticast v4 => v4 | DUnicast a _ => is_v4 a end.
+Definition egress_if (os : list iface) (intf : myintf) (v4 : bool) : N :=
+  if v4 then
+    match find (fun a => is_v4 (ia_ip a)) (mi_addrs intf) with
+    | Some a => match find (fun i => ip_eqb (i_ip i) (ia_ip a)) os with Some i => i_index i | None => 0 end
+    | None => 0
+    end
+  else mi_index intf.
+Definition reroute (os : list iface) (intf : myintf) (p : packet) : packet :=
+  mkPacket (p_dest p) (egress_if os intf (dest_is_v4 p)) (p_id p) (p_flags p) (p_questions p) (p_answers p)
+           (p_additionals p).
+
 (* ---- observations -------------------------------------------------------------------------------- *)
 
 Inductive obs : Type :=
 | OSent (p : packet)
+| OSentAny (p : packet)              (* leaves on the interface the IPv4 socket was last pointed at *)
 | OIpAdd (a : ip)
 | OIpDel (a : ip)
 | OFound (ty inst : bytes)
@@ -281,7 +299,7 @@ Definition add_interface (d : dstate) (i : iface) : dstate * list obs :=
                        let ds1 := svc_insert_ip (i_ip i) ds in
                        match announce_on (ds_svc ds1) my_intf v4 with
                        | Some p => (svcs ++ [(fst kv, mkDsvc (ds_svc ds1) true (status_set idx Announced (ds_status ds1)))],
-                                    sent ++ [OSent p])
+                                    sent ++ [OSent (reroute (d_os d) my_intf p)])
                        | None => (svcs ++ [(fst kv, mkDsvc (ds_svc ds1) true (status_set idx Probing (ds_status ds1)))], sent)
                        end
                      else (svcs ++ [kv], sent)) (d_svcs d1) ([], []) in
@@ -365,7 +383,8 @@ Definition handle_dgram (d : dstate) (g : dgram) : dstate * list obs :=
          | Ok m =>
            if N.land (m_flags m) 32768 =? 0 then
              if memN (dg_if g) (d_regs d)
-             then (d, map OSent (opt_list (handle_query (mkHq (entries_on d (dg_if g)) [] intf m (dg_src g) (dg_port g)))))
+             then (d, map (fun p => OSent (reroute (d_os d) intf p))
+                          (opt_list (handle_query (mkHq (entries_on d (dg_if g)) [] intf m (dg_src g) (dg_port g)))))
              else (d, [])
            else handle_response d intf m
          | _ => (d, [])
@@ -411,7 +430,8 @@ Definition do_register (now : N) (d : dstate) (s : service) (auto : bool) : dsta
                  let pk := opt_list p4 ++ opt_list p6 in
                  if is_nil pk
                  then (status_set (mi_index intf) Probing status, sent, resend)
-                 else (status_set (mi_index intf) Announced status, sent ++ map OSent pk,
+                 else (status_set (mi_index intf) Announced status,
+                       sent ++ map (fun p => OSent (reroute (d_os d) intf p)) pk,
                        resend ++ [(now + 1000, RRegisterResend key (mi_index intf))]))
               (d_intfs d) ([], [], []) in
   let regs := fold_left (fun acc intf => addN (mi_index intf) acc) (d_intfs d) (d_regs d) in
@@ -427,7 +447,7 @@ Definition do_unregister (now : N) (d : dstate) (key : bytes) : dstate * list ob
                    let '(sent, resend) := acc in
                    let p4 := goodbye_on (ds_svc ds) intf true in
                    let p6 := goodbye_on (ds_svc ds) intf false in
-                   (sent ++ map OSent (opt_list p4 ++ opt_list p6),
+                   (sent ++ map (fun p => OSent (reroute (d_os d) intf p)) (opt_list p4 ++ opt_list p6),
                     resend ++ map (fun p => (now + 120, RUnregisterResend p (mi_index intf) true)) (opt_list p4)
                            ++ map (fun p => (now + 120, RUnregisterResend p (mi_index intf) false)) (opt_list p6)))
                 (d_intfs d) ([], []) in
@@ -480,13 +500,17 @@ Definition do_retrans (d : dstate) (c : rcmd) : dstate * list obs :=
         let pk := opt_list (announce_on (ds_svc ds) intf true) ++ opt_list (announce_on (ds_svc ds) intf false) in
         if is_nil pk then (d, [])
         else (upd_svcs (svc_put key (mkDsvc (ds_svc ds) (ds_auto ds) (status_set idx Announced (ds_status ds)))) d,
-              map OSent pk)
+              map (fun p => OSent (reroute (d_os d) intf p)) pk)
       else (d, [])
     | _, _ => (d, [])
     end
   | RUnregisterResend p idx v4 =>
     match intf_get idx (d_intfs d) with
-    | Some intf => if family_enabled intf v4 then (d, [OSent p]) else (d, [])
+    | Some intf =>
+      (* exec_command_unregister_resend calls multicast_on_intf without set_multicast_if_*: an
+         IPv4 packet leaves wherever the socket was last pointed at (a real IPv6 stack follows the
+         scope id of the destination; the simulated socket reports its option for IPv6 as well) *)
+      if family_enabled intf v4 then (d, [OSentAny p]) else (d, [])
     | None => (d, [])
     end
   end.
@@ -509,7 +533,9 @@ Definition iterate (d : dstate) (s : step) : dstate * list obs :=
             | Some tbl => mkD tbl (d_intfs d) (d_regs d) (d_sels d) (d_svcs d) (d_cache d) (d_browsed d) (d_resolved d)
                               (d_interval d) (d_next_check d) (d_retrans d)
             | None => d end in
-  let '(d1, o1) := run_list handle_dgram (st_dgrams s) d0 in
+  (* the IPv4 socket is drained first, then the IPv6 socket *)
+  let dgs := filter (fun g => is_v4 (dg_src g)) (st_dgrams s) ++ filter (fun g => negb (is_v4 (dg_src g))) (st_dgrams s) in
+  let '(d1, o1) := run_list handle_dgram dgs d0 in
   let '(d2, o2) := run_list (do_call now) (st_calls s) d1 in
   (* retransmissions whose time has come, in list order; the others stay *)
   let due := filter (fun r => fst r <=? now) (d_retrans d2) in
